@@ -55,6 +55,29 @@ from twisted.internet import main as _main  # noqa: E402
 class VReactor(MemoryReactorClock):
     """MemoryReactorClock + the few extra methods tahoe/foolscap/treq touch."""
 
+    errors = None
+
+    def advance(self, amount):
+        """like task.Clock.advance, but an exception raised by a timer callback is caught
+        and recorded (the real reactor logs it and carries on) instead of unwinding the harness"""
+        if self.errors is None:
+            self.errors = []
+        self.rightNow += amount
+        self._sortCalls()
+        while self.calls and self.calls[0].getTime() <= self.seconds():
+            call = self.calls.pop(0)
+            call.called = 1
+            try:
+                call.func(*call.args, **call.kw)
+            except Exception:
+                from twisted.python.failure import Failure
+                self.errors.append(Failure())
+            self._sortCalls()
+
+    def take_errors(self):
+        e, self.errors = (self.errors or []), []
+        return e
+
     def callFromThread(self, f, *a, **kw):
         self.callLater(0, f, *a, **kw)
 
